@@ -5,6 +5,7 @@ CONSTANTS
   MaxElems = 5
   EmitEdges = FALSE
   EmitOneIn = 1
+  EmitExact = FALSE
   WithReads = TRUE
   AllowPop = TRUE
   GrowUntil = 0
